@@ -24,14 +24,25 @@
 (* finish = once{ close(done); close(output) } (a second caller of a       *)
 (* running sync.Once blocks until the first has finished).                 *)
 (*                                                                         *)
-(* pc label -> line of lib/mr/mapreduce.go where the goroutine then sits:  *)
+(* pc label -> line of lib/mr/mapreduce.go AS IT WAS BEFORE commit ea11f3e *)
+(* (the tree on which the blocked states were reproduced) where the        *)
+(* goroutine then sits:                                                    *)
 (*   c_select 237  c_drainout 243  c_defer 181  x_once 307  x_drain 207    *)
 (*   f_once 195  g_send (user)  g_pw/m_pw/r_pw 352  d_select 268           *)
 (*   d_recv 274  d_wait 259  d_drain 261  m_wsend 377  r_recv 221 (user    *)
 (*   reducer reading the pipe)  r_wsend 377  r_defer 214  e_select 119     *)
 (*                                                                         *)
-(* Repairs = {}: the code as it is.  Proposed repairs (validated here      *)
-(* before they were tried on the code):                                    *)
+(* Repairs selects the variant of the code that is modelled:               *)
+(*  {}                       mapreduce.go before /repo commit ea11f3e      *)
+(*                           (kept as the recorded lead: TLC must still    *)
+(*                           exhibit the blocked states of the fixed leak) *)
+(*  {"panicbuf","deadline"}  THE CODE UNDER TEST since commits ea11f3e     *)
+(*                           and c6d89a0; checked with every invariant,    *)
+(*                           Tolerate = {"rt"} (open known finding         *)
+(*                           C07:result:send-on-closed-output)             *)
+(*  + "outclose"             lead: the full repair (/tmp/fixes/C07-3.patch,*)
+(*                           not taken); nothing needs to be tolerated     *)
+(* The repairs (each validated here before it was tried on the code):      *)
 (*  "panicbuf"  panicChan gets capacity 1 and onceChan.write becomes a     *)
 (*     non-blocking send - the first panic is kept, later ones are dropped,*)
 (*     nobody ever blocks; the caller polls panicChan once more before it  *)
@@ -50,7 +61,7 @@
 (***************************************************************************)
 EXTENDS MRContract
 
-CONSTANTS Repairs,    \* subset of {"panicbuf", "deadline", "outclose"}: which proposed repairs are applied ({} = the code as it is)
+CONSTANTS Repairs,    \* subset of {"panicbuf", "deadline", "outclose"}: see the header ({"panicbuf","deadline"} = the code under test)
           Tolerate    \* subset of {"rt", "noout"}: result deviations of the model that are tolerated in ResultOK
 
 Repair == "panicbuf" \in Repairs
@@ -456,7 +467,7 @@ Tolerated == (IF "rt" \in Tolerate THEN {Pan("RT")} ELSE {})
 
 \* the caller's result is one the contract allows
 ResultOK == CallerReturned => MapOut(sc.api, res) \in Outcomes(sc) \cup Tolerated
-\* the code as it is: the same, except in states where a goroutine sits in the blocking onceChan.write - when
+\* the code before ea11f3e (Repairs = {}): the same, except in states where a goroutine sits in the blocking onceChan.write - when
 \* two panics race, the loser of the CAS carries on as if its panic had been delivered, and the caller's select
 \* may then take `output` although the winner is offering its panic (the winner stays blocked: LeakOnlyByPanicWrite)
 ResultOKAsIs == (CallerReturned /\ ~BlockedOnPanicWrite) => MapOut(sc.api, res) \in Outcomes(sc) \cup Tolerated
@@ -478,7 +489,7 @@ NoSendOnClosed == pval[Red] # "RT"
 \* the call returns, and no goroutine of the call is blocked forever
 Returns  == Terminal => CallerReturned
 LeakFree == Terminal => AllDone
-\* the code as it is: every state in which something is blocked forever contains a goroutine blocked in
+\* the code before ea11f3e (Repairs = {}): every state in which something is blocked forever contains a goroutine blocked in
 \* onceChan.write (mapreduce.go:352) - i.e. that send is the only root cause of leaks and hangs
 LeakOnlyByPanicWrite == (Terminal /\ ~AllDone) => BlockedOnPanicWrite
 \* every behaviour comes to rest (checked with FairSpec)
